@@ -37,16 +37,40 @@ T = {
  "C05-m2": ("C05", "cglue/src/arc.rs CArcSome::transpose rebinding (same change as C10-m2)", "a foreign CArcSome transposed by the host, then cloned / dropped last", ["C05", "C10"], "C10 as built; C05 after adding the transpose round trip"),
  "C09-m1": ("C09", "cglue/src/forward.rs: per-handle Opaquable impls for Fwd, the Fwd<CBox<T>> one without T: Send", "Fwd around CBox with a !Send payload", ["C09"], "missed at first; caught after adding Fwd<&T>, Fwd<CBox<T>>, Fwd<CArcSome<T>> to the matrix"),
  "C09-m2": ("C09", "cglue/src/arc.rs: Send/Sync of CArcSome<T> bounded by `&'static T: Send/Sync`", "CArcSome over a Sync-but-not-Send payload", ["C09"], "missed at first; caught after adding the wrapper-vs-std cells (concrete cglue pointer vs the std handle it is built from)"),
- "C17-m1": ("C17", "cglue-bindgen/src/types.rs Group::create_wrappers: vtable name list built incrementally", "C++ mode, group with >= 2 traits, container-returning entry in a trait that is not the last vtable", [], "see DESIGN 9.5"),
+ "C17-m1": ("C17", "cglue-bindgen/src/types.rs Group::create_wrappers: vtable name list built incrementally", "C++ mode, group with >= 2 traits, container-returning entry in a trait that is not the last vtable", ["C17"], "missed at first; caught after adding 3-trait Self-returning groups in C++ mode (self_return_vtbl_uninit:cpp:group — distinct from the C-mode known findings)"),
  "C17-m2": ("C17", "cglue-bindgen/src/types.rs create_wrapper: context clone only kept when the container has a drop helper", "C mode, consuming entry on a Mut/Ref container with CArc context, object holds the last reference", ["C17"], "caught as built (ctx_not_held:c)"),
- "C18-m1": ("C18", "cglue-bindgen/src/codegen/c.rs: callback helpers emitted by iterating a HashSet of element types", "C header with two or more distinct callback element types", [], "see DESIGN 9.5"),
+ "C18-m1": ("C18", "cglue-bindgen/src/codegen/c.rs: callback helpers emitted by iterating a HashSet of element types", "C header with two or more distinct callback element types", ["C18"], "missed at first (one callback element type in the inputs); caught after adding inputs with several callback element types and 12 repeated runs per input (nondeterministic_output:1contexts:Ncallbacktypes)"),
  "C18-m2": ("C18", "cglue-bindgen/src/main.rs: first argument after `--` forwarded unconditionally", "-o/--output as the very first argument after `--`", ["C18"], "caught as built (args_forwarding:o_first)"),
- "C20-m1": ("C20", "cglue/src/callback.rs: func field typed through an alias and marked sabi(unsafe_opaque_field)", "argument type edit where only the element type of an OpaqueCallback changes", [], "see DESIGN 9.5"),
- "C20-m2": ("C20", "cglue/src/trait_group.rs compare_layouts: cache of the last found layout that compared Valid", "two comparisons in one process with the same found layout and different expectations", [], "see DESIGN 9.5"),
+ "C20-m1": ("C20", "cglue/src/callback.rs: func field typed through an alias and marked sabi(unsafe_opaque_field)", "argument type edit where only the element type of an OpaqueCallback changes", ["C20"], "missed at first; caught after adding element-type edits of callbacks/iterators/slices to the edit catalogue (layout:valid_for_edit:arg_elem:cb_arg)"),
+ "C20-m2": ("C20", "cglue/src/trait_group.rs compare_layouts: cache of the last found layout that compared Valid", "two comparisons in one process with the same found layout and different expectations", ["C20"], "missed at first (one comparison per process); caught after adding the sequences section: every ordered pair/triple of comparisons in one process (layout:stateful:*)"),
+}
+
+# round 2: agents were told what round 1 had tried and asked for a different mechanism / trigger
+T2 = {
+ "C01r2-m1": ("C01", "cglue-gen/src/trait_groups.rs mixed_opt_vtbl_defs: the With-struct emits all selected optional vtables in one block", "group with >= 3 optional traits, as_ref!/as_mut!/cast+upcast to a non-contiguous pair on an object that also implements the skipped trait", ["C08", "C04"], "caught as built (cast_matrix dispatch, group_layout cast_bits)"),
+ "C01r2-m2": ("C01", "cglue-gen/src/func.rs + traits.rs: methods returning a reference to the same wrapped associated type share one RetTmp slot", "two &self methods returning &Self::Assoc of the same wrapper type, first result kept alive across the second call", ["C06", "C07"], "missed at first; caught after adding child_ref2 and the BothRefs operation (both borrowed children held and used together) to the lifecycle alphabet"),
+ "C04r2-m1": ("C04", "cglue-gen/src/trait_groups.rs Ord for TraitInfo compares lower-cased names", "group whose trait names order differently byte-wise and case-folded (TLB/Tag)", ["C04", "C08"], "missed at first; caught after adding the Gcase family (TLB, Tag, KVStore, KeyDumper)"),
+ "C04r2-m2": ("C04", "cglue-gen/src/trait_groups.rs ret_tmp_defs: temporary-storage fields emitted in HashMap iteration order", "group with >= 2 traits whose RetTmp is not zero-sized; differs from expansion to expansion", ["C04"], "caught as built (expansion repeatability, run n times per group)"),
+ "C04r2-m3": ("C04", "cglue/src/trait_group.rs CGlueObjContainer: ret_tmp stored before context", "object with a non-zero-sized context AND a trait with non-zero-sized temporary storage", ["C04"], "missed at first; caught after adding the hand-written single-trait-object container layout member (instance, context, temporary storage, in that order, read as raw words)"),
+ "C06r2-m1": ("C06", "cglue/src/boxed.rs IntoInner for CBox: the box is freed by hand with the layout of the reference field", "consuming (self) method on a boxed object whose payload is not pointer-shaped, seen by a layout-recording allocator", ["C06"], "caught as built (allocator LayoutMismatch)"),
+ "C06r2-m2": ("C06", "cglue-gen/src/trait_groups.rs upcast(): bitwise copy without forgetting self", "boxed group with droppable payload: cast! then upcast() then use/drop", ["C06", "C08"], "caught as built (cast:drop_count / double free in the allocator)"),
+ "C08r2-m1": ("C08", "cglue-gen/src/trait_groups.rs mixed_opt_vtbl_defs: cast-struct field order keyed by lower-cased field name", "trait names ordering differently when case-folded, as_ref!/as_mut! or cast + upcast", ["C08", "C04"], "missed at first; caught after adding the Gcase family"),
+ "C08r2-m2": ("C08", "cglue-gen/src/trait_groups.rs implement_group: the filler of the type itself is built from the forward list", "cglue_impl_group!(T, G, { own list }, { forward list }) with differing lists", ["C08", "C04"], "missed at first (3-argument form only); caught after adding the Gfwd family (4-argument form, Fwd container cells)"),
+ "C10r2-m1": ("C10", "cglue/src/arc.rs c_clone: type-erased Arc<c_void> clone", "payload with alignment >= 32, clone of any handle", ["C10"], "missed at first; caught after adding the 64-byte-aligned payload sections"),
+ "C10r2-m2": ("C10", "cglue/src/arc.rs c_drop: runs the destructor itself if strong_count == 1 (check-then-act), then drops Arc<ManuallyDrop<T>>", "two threads releasing the last handles of one allocation concurrently, payload with a destructor, no other owner", ["C10"], "missed at first (every scenario kept a retained Arc); caught by loom after adding the handles-only scenarios (root from From<T>, payload must be destroyed exactly once)"),
+ "C11r2-m1": ("C11", "cglue/src/vec.rs From<Vec<T>>: drop_fn None for a vector that has not allocated", "CVec from a zero-capacity Vec, then grown; only a leak check sees it", ["C11"], "caught as built (allocator leak)"),
+ "C11r2-m2": ("C11", "cglue/src/vec.rs remove: new length committed before the bounds check", "remove(index >= len) on a non-empty vector, panic caught, vector inspected afterwards", ["C11"], "caught as built (out-of-range removal with catch_unwind, then lock-step comparison)"),
+ "C11r2-m3": ("C11", "cglue/src/vec.rs TempVec::drop writes data/capacity back only when the pointer moved", "growth for which realloc keeps the address (size-class allocator)", ["C11"], "missed at first (the tracking allocator always relocated); caught after adding the size-class mode (in-place realloc) and the *_inplace sections"),
+ "C16r2-m1": ("C16", "cglue/src/iter.rs next(): only the literal 1 means end of stream", "foreign iterator following the published layout that signals the end with a non-zero code other than 1", ["C16"], "missed at first; caught after the mirror iterators use end codes {1, -1, 2, i32::MIN}"),
+ "C16r2-m2": ("C16", "cglue/src/slice.rs: len field stores bytes instead of elements", "element size > 1, access through the published {data, len} layout", ["C16", "C02"], "caught as built (mirror structs; C cross-check)"),
+ "C19r2-m1": ("C19", "cglue/src/task/mod.rs wake(): the handle is released before the caller's waker is woken through a stale copy", "the woken handle is the last of its family and the caller has already dropped its own waker", ["C19"], "missed at first; caught after adding DropCaller to the alphabet and checking use-after-release at every step"),
+ "C19r2-m2": ("C19", "cglue/src/task/mod.rs: wake_by_ref/drop callbacks return early when a word of the stored raw waker is null", "caller waker with a null data pointer (state in a static), retained clone", ["C19"], "missed at first; caught after adding the *_nulldata sections"),
 }
 
 def main():
-    for key, (prop, what, needs, caught_by, note) in T.items():
+    allt = dict(T)
+    allt.update(T2)
+    for key, (prop, what, needs, caught_by, note) in allt.items():
         ident, m = key.split("-")
         src = "/tmp/mut_out/%s/%s" % (ident, m)
         dst = "/verif/seeded/%s" % key
@@ -63,9 +87,9 @@ def main():
             "property": prop,
             "change": what,
             "needs_to_manifest": needs,
-            "origin": "fresh sub-agent given only the property text and a scratch worktree of /repo",
+            "origin": "fresh sub-agent given only the property text and a scratch worktree of /repo" + (" (round 2: also told, in one line each, which changes round 1 had tried, to get a different mechanism)" if "r2" in key else ""),
             "confirmed": {
-                "how": ("scratch worktree: demo on the clean tree passes; patch applied: `cargo nextest run --workspace --no-fail-fast --offline` 68/68 pass; demo fails (tools/seed_confirm.sh)"
+                "how": ("scratch worktree: demo on the clean tree passes; patch applied: `cargo nextest run --workspace --no-fail-fast --offline` 68/68 pass; demo fails (tools/seed_confirm.sh / seed_confirm2.sh)"
                         if demo == "demo.rs" else "scratch worktree: %s passes on the clean tree, fails with the patch; 68/68 tests pass with the patch" % demo),
                 "demo": demo,
                 "demo_cmd": ("mkdir -p <wt>/cglue/tests && cp demo.rs <wt>/cglue/tests/demo.rs && cd <wt> && cargo test --offline -p cglue%s --test demo" % feat) if demo == "demo.rs" else "sh %s <wt>" % demo,
